@@ -9,15 +9,16 @@ S4 iterative composition: only the root runs the queue loop, and a component's o
 from __future__ import annotations
 
 import ast
+import re
 from typing import List, Optional, Set, Tuple
 
 from ..absstr import Evaluator, simplify
 from ..astq import assignments, calls, kwarg, params, stmts
 from ..callgraph import fkey
 from ..cfg import always_exits, cond_atoms
-from ..regexlang import ASCII_WORD, Lang, Seg, show
+from ..regexlang import included, segs_regex, ASCII_WORD, Lang, Seg, show
 from ..report import Check
-from ..source import AnalysisError, Module, Project, ancestors, body_walk, dotted, enclosing_func, enclosing_stmt, last_attr, norm, parent, qual_of, short
+from ..source import AnalysisError, Module, Project, ancestors, assign_targets, body_walk, dotted, enclosing_func, enclosing_stmt, last_attr, norm, parent, qual_of, short
 from .common import world
 from .markers import compiled_regex, render_placeholder_writer, root_attr_shapes
 
@@ -78,6 +79,104 @@ def run(chk: Check, proj: Project) -> None:
     s2(chk, proj, w)
     s3(chk, proj, w)
     s4(chk, proj, w)
+    s5(chk, proj, w)
+
+
+_FIXTURE_DEEPCOPY = "import copy\ndef snap(ctx_dict):\n    return copy.deepcopy(ctx_dict['forloop'])\n"
+
+
+def _deepcopy_sites(tree: ast.AST) -> List[ast.Call]:
+    return [c for c in ast.walk(tree) if isinstance(c, ast.Call) and last_attr(c.func) in ("deepcopy",) or (isinstance(c, ast.Call) and (dotted(c.func) or "").startswith("pickle."))]
+
+
+def s5(chk: Check, proj: Project, w) -> None:
+    chk.rule("S5", "no Python recursion that grows with nesting: the component's template is rendered only inside the deferred renderer closure, the renderer is called only from the queue loop, the render-reachable in-package call graph has no cycle, and the context snapshot walks the forloop/parentloop chain with a loop (no deepcopy / pickle)")
+    # (a) eager template render
+    n = 0
+    for q in ("Component._render", "Component._render_impl", "Component._render_with_id", "Component._gen_component_renderer"):
+        r = proj.try_func("component", q)
+        if r is None:
+            continue
+        mm, ff = r
+        n += 1
+        eager = [c for c in ast.walk(ff) if isinstance(c, ast.Call) and isinstance(c.func, ast.Attribute) and c.func.attr == "render" and isinstance(c.func.value, ast.Name) and "template" in c.func.value.id.lower() and enclosing_func(c) is ff]
+        chk.ob("S5", f"component:{q}:no-eager-template-render", mm.loc(eager[0]) if eager else mm.loc(ff), not eager,
+               "the component's template is not rendered in this frame (only in the deferred closure)" if not eager else
+               f"`{short(eager[0])}` renders the component's template in the frame of the {{% component %}} tag: one Python recursion per nesting level (RecursionError at ~60 levels)")
+    chk.floor("S5", n, 3)
+    # (b) renderer invoked only from the queue machinery
+    m, f = proj.func("perfutil.component", "component_post_render")
+    selfcalls = [c for c in ast.walk(f) if isinstance(c, ast.Call) and last_attr(c.func) == "component_post_render"]
+    chk.ob("S5", "perfutil.component:component_post_render:not-self-recursive", m.loc(selfcalls[0]) if selfcalls else m.loc(f), not selfcalls, "component_post_render never calls itself")
+    # (c) in-package cycles on the render-reachable graph
+    reach = set(w.render_reachable())
+    idx: Dict[str, int] = {}
+    low: Dict[str, int] = {}
+    stack: List[str] = []
+    on: Set[str] = set()
+    cyc: List[List[str]] = []
+    counter = [0]
+
+    def succs(v: str) -> List[str]:
+        return sorted({e[0] for e in w.cg.edges.get(v, ()) if e[0] in reach})
+
+    for root in sorted(reach):
+        if root in idx:
+            continue
+        work = [(root, iter(succs(root)))]
+        idx[root] = low[root] = counter[0]
+        counter[0] += 1
+        stack.append(root)
+        on.add(root)
+        while work:
+            v, it = work[-1]
+            adv = False
+            for t in it:
+                if t not in idx:
+                    idx[t] = low[t] = counter[0]
+                    counter[0] += 1
+                    stack.append(t)
+                    on.add(t)
+                    work.append((t, iter(succs(t))))
+                    adv = True
+                    break
+                elif t in on:
+                    low[v] = min(low[v], idx[t])
+            if adv:
+                continue
+            work.pop()
+            if work:
+                low[work[-1][0]] = min(low[work[-1][0]], low[v])
+            if low[v] == idx[v]:
+                comp = []
+                while True:
+                    x = stack.pop()
+                    on.discard(x)
+                    comp.append(x)
+                    if x == v:
+                        break
+                if len(comp) > 1 or v in succs(v):
+                    cyc.append(sorted(comp))
+    chk.extra["render_reachable_functions"] = len(reach)
+    if len(reach) < 80:
+        raise AnalysisError(f"render-reachable set collapsed to {len(reach)} functions")
+    chk.ob("S5", "render-call-graph:acyclic", m.loc(f), not cyc, f"no cycle among the {len(reach)} render-reachable in-package functions" if not cyc else
+           f"render-reachable functions call each other in a cycle {cyc[0][:4]}: Python recursion on the render path, depth-limited")
+    # (d) chain copy is iterative
+    fx = _deepcopy_sites(ast.parse(_FIXTURE_DEEPCOPY))
+    if len(fx) != 1:
+        raise AnalysisError("deepcopy lint lost its positive fixture")
+    cm = proj.mod("util.context")
+    sites = []
+    for fk in sorted(reach | {k for k in w.cg.funcs if k.startswith("django_components.util.context:")}):
+        fm, ffn = w.cg.funcs[fk]
+        for c in _deepcopy_sites(ffn):
+            if enclosing_func(c) is ffn or fk.startswith("django_components.util.context:"):
+                sites.append((fm, c))
+    ok = not sites
+    chk.ob("S5", "render-path:no-structural-recursion-helpers", sites[0][0].loc(sites[0][1]) if sites else cm.loc(cm.tree), ok,
+           "no deepcopy / pickle on the render path or in the context snapshot" if ok else
+           f"`{short(sites[0][1])}` copies by structural recursion: the forloop -> parentloop chain (and any per-level structure) grows with nesting, so deep pages raise RecursionError where the loop-based copy does not")
 
 
 SINKS = [
@@ -139,17 +238,39 @@ def s1(chk: Check, proj: Project, w) -> None:
             chk.ob("S1", "component:render:registry-key", a.loc, ok, "ComponentContext is registered under the render id" if ok else f"registered under `{short(a.key)}`: {why}")
     chk.floor("S1", n, 9)
     # metadata stack LIFO
+    mid, fid = proj.func("component", "Component.id")
+    subs = [x for x in body_walk(fid) if isinstance(x, ast.Subscript) and isinstance(x.value, ast.Attribute) and norm(x.value.value) == "self"]
+    if len({x.value.attr for x in subs}) != 1:
+        chk.undecided("S1", "component:Component.id:stack-attribute", mid.loc(fid), "Component.id does not read `self.<stack>[...]`: the metadata stack attribute cannot be identified")
+        return
+    SA = subs[0].value.attr
+    SELF_SA = f"self.{SA}"
     mw, fw = proj.func("component", "Component._with_metadata")
-    pushes = [c for c in calls(fw) if isinstance(c.func, ast.Attribute) and norm(c.func.value) == "self._metadata_stack" and c.func.attr in ("append", "appendleft", "insert")]
-    pops = [c for c in calls(fw) if isinstance(c.func, ast.Attribute) and norm(c.func.value) == "self._metadata_stack" and c.func.attr in ("pop", "popleft")]
+    pushes = [c for c in calls(fw) if isinstance(c.func, ast.Attribute) and norm(c.func.value) == SELF_SA and c.func.attr in ("append", "appendleft", "insert")]
+    pops = [c for c in calls(fw) if isinstance(c.func, ast.Attribute) and norm(c.func.value) == SELF_SA and c.func.attr in ("pop", "popleft")]
     lifo = len(pushes) == 1 and len(pops) == 1 and ((pushes[0].func.attr == "append" and pops[0].func.attr == "pop" and not pops[0].args) or (pushes[0].func.attr == "appendleft" and pops[0].func.attr == "popleft"))
     chk.ob("S1", "component:Component._with_metadata:lifo", mw.loc(fw), lifo, "metadata is pushed and popped at the same end (stack)" if lifo else f"`{short(pushes[0]) if pushes else '?'}` / `{short(pops[0]) if pops else '?'}` do not form a stack: after a re-entrant render Component.id reports another render's id")
+    # ... and the stack belongs to the instance: created fresh in __init__, never bound in a class body
+    mi, fi = proj.func("component", "Component.__init__")
+    own = [st for st in stmts(fi) if isinstance(st, (ast.Assign, ast.AnnAssign)) and any(norm(t) == SELF_SA for t, _v in assign_targets(st))]
+    fresh = len(own) == 1 and own[0] in fi.body and isinstance(own[0].value, (ast.Call, ast.List)) and not any(isinstance(x, ast.Name) for x in ast.walk(own[0].value) if x is not getattr(own[0].value, "func", None))
+    shared = []
+    for mm2 in proj.modules.values():
+        for c in ast.walk(mm2.tree):
+            if isinstance(c, ast.ClassDef):
+                for st in c.body:
+                    if isinstance(st, (ast.Assign, ast.AnnAssign)) and st.value is not None and any(norm(t) == SA for t, _v in assign_targets(st)):
+                        shared.append((mm2, st))
+    okown = fresh and not shared
+    chk.ob("S1", "component:Component._metadata_stack:per-instance", shared[0][0].loc(shared[0][1]) if shared else (mi.loc(own[0]) if own else mi.loc(fi)), okown,
+           "the metadata stack is created fresh in Component.__init__ and bound in no class body" if okown else
+           "the metadata stack behind Component.id is not owned by the instance (bound in a class body / not created fresh in __init__): all instances push onto one stack, so a component handed to a child, or two threads, read each other's id")
     end = "[-1]" if pushes and pushes[0].func.attr == "append" else "[0]"
     for prop in ("id", "input", "is_filled"):
         r2 = proj.try_func("component", f"Component.{prop}")
         if r2 is None:
             continue
-        reads = [x for x in body_walk(r2[1]) if isinstance(x, ast.Subscript) and norm(x.value) == "self._metadata_stack"]
+        reads = [x for x in body_walk(r2[1]) if isinstance(x, ast.Subscript) and norm(x.value) == SELF_SA]
         ok = bool(reads) and all(norm(x).endswith(end) for x in reads)
         chk.ob("S1", f"component:Component.{prop}:reads-top", r2[0].loc(r2[1]), ok, f"Component.{prop} reads the top of the stack ({end})" if ok else f"Component.{prop} does not read the end the stack is pushed at")
 
@@ -175,6 +296,20 @@ def s2(chk: Check, proj: Project, w) -> None:
         chk.ob("S2", "perfutil.component:nested_comp_pattern", rloc, ok, "nested_comp_pattern matches the placeholder for every id" if ok else f"placeholder {wit!r} is not matched")
     # attribute carrying the id
     shapes, sloc = root_attr_shapes(proj, ev)
+    # a placeholder that is the root of k nested root components carries k inherited id attributes (unbounded k):
+    # writer language  <prefix>( <attr>="")*></template>  must be inside the reader's language
+    tail = "></template>"
+    attr_alts = [segs_regex(alt) for _e, v in shapes for alt in v]
+    for a in rp:
+        if not (a and a[-1].kind == "lit" and a[-1].text.endswith(tail)) or not attr_alts:
+            chk.undecided("S2", "perfutil.component:nested_comp_pattern:any-number-of-root-attributes", rloc, "placeholder writer / attribute shapes not recognised")
+            continue
+        pre = list(a[:-1]) + [Seg.lit(a[-1].text[: -len(tail)])]
+        wre = segs_regex(pre) + "(?: (?:" + "|".join(attr_alts) + ')="")*' + re.escape(tail)
+        ok, wit = included(Lang(wre), l2)
+        chk.ob("S2", "perfutil.component:nested_comp_pattern:any-number-of-root-attributes", rloc, ok,
+               "the placeholder with ANY number of inherited root attributes is matched (a chain of components-as-roots of any length)" if ok else
+               f"placeholder {wit!r} (a component that is the root of a chain of enclosing root components, one inherited attribute per link) is not matched by nested_comp_pattern: it stays in the page and everything below it is never rendered")
     idshape = [v for e, v in shapes if "component_id" in e]
     ok = bool(idshape) and all(alt and alt[0].kind == "lit" and alt[0].text == "data-djc-id-" and len(alt) == 2 and alt[1].alphabet <= ASCII_WORD for v in idshape for alt in v)
     chk.ob("S2", "dependencies:set_component_attrs_for_js_and_css:id-attribute", sloc, ok, "root attribute is `data-djc-id-<render id>`" if ok else f"root id attribute has an unexpected shape: {[show(a) for v in idshape for a in v]}")
